@@ -1,6 +1,9 @@
 import ZeepVerif.Driver.C06Spec
+import ZeepVerif.Driver.SpecGen
 
 def main (args : List String) : IO UInt32 := do
   match args with
   | ["c06"] => ZeepVerif.Driver.C06Spec.main; return 0
+  | ["gen", seed, count, root] => ZeepVerif.Driver.SpecGen.main seed.toNat! count.toNat! root
+  | ["gencyc", seed, count, root] => ZeepVerif.Driver.SpecGen.main seed.toNat! count.toNat! root true
   | _ => IO.eprintln "usage: zvspec c06 < lines"; return 2
